@@ -121,6 +121,8 @@ def run_native(target, cwd, style, options, trace):
 def check_case(case, ctx):
     if 'kinds' in case and 'modules' not in case:
         return check_text_case(case, ctx)
+    if 'doubtful' in case:
+        return check_doubtful_case(case, ctx)
     style = case['style']
     options = tuple(case.get('options', ()))
     mods = case['modules']
@@ -343,6 +345,72 @@ def hyp_textfiles(ctx, n_examples):
     ctx.guard(check_text_case, {'kinds': ['bind_fail', 'read_x', 'bind_pass', 'read_x', 'skip_all', 'pass', 'fail_out'], 'ext': '.txt'})
 
 
+# ---------------------------------------------------------------------------
+# a docstring of doubtful syntax between sound ones: both front ends must still run the neighbours (and never break down)
+
+DOUBTFUL = [
+    # google blocks in which nothing is a prompt (typos of it, prose)
+    ['Example:', '    >> x = 1', '    >>>x = 2', '    > > > y = 3'],
+    ['Example:', '    just prose where examples should be'],
+    ['Examples:', '    >>>print(1)', '    1'],
+    ['Doctest:', '    >>', '    ...'],
+    # statements that are not Python
+    ['Example:', '    >>> for i in range(3)', '    ...     print(i)'],
+    ['Example:', '    >>> x = = 2', '    >>> print(x)'],
+    ['>>> def f(x)', '...     return x'],
+    ['Some prose.', '', '>>> x = (1,', '>>> print(x)', '1'],
+    ['Example:', "    >>> s = '''", '    >>> print(s)'],
+]
+
+
+def check_doubtful_case(case, ctx):
+    style = case['style']
+    body = DOUBTFUL[case['doubtful'] % len(DOUBTFUL)]
+    lines = ['import os', '', '', 'def _vp_trace(ident):', "    with open(os.environ['VP_TRACE'], 'a') as fh:", "        fh.write(ident + '\\n')", '', '']
+    lines += ['def good_a():', '    \"\"\"', '    Summary.', '', '    Example:', "        >>> _vp_trace('a')", "        >>> print('a1')", '        a1', '    \"\"\"', '', '']
+    lines += ['def doubtful():', '    \"\"\"', '    Summary of the doubtful one.', ''] + ['    ' + b for b in body] + ['    \"\"\"', '', '']
+    lines += ['def failing_c():', '    \"\"\"', '    Summary.', '', '    Example:', "        >>> _vp_trace('c')", "        >>> print('c')", '        not c', '    \"\"\"', '', '']
+    name = sandbox.unique_name('vpc15d')
+    with sandbox.scratch('c15d') as d:
+        with open(os.path.join(d, name + '.py'), 'w') as f:
+            f.write('\n'.join(lines) + '\n')
+        tp, tn = os.path.join(d, 'tp.txt'), os.path.join(d, 'tn.txt')
+        rc_p, res_p, out_p = run_pytest(name + '.py', d, style, (), tp, os.path.join(d, 'junit.xml'))
+        rc_n, res_n, out_n, _dup = run_native(name + '.py', d, style, (), tn)
+        trace_p, trace_n = _read_trace(tp), _read_trace(tn)
+    if ctx is not None:
+        ctx.count(2)
+        ctx.tag('doubtful_neighbour', 'doubtful:{}'.format(case['doubtful'] % len(DOUBTFUL)), 'style:' + style)
+        ctx.nontriv(('doubtful', case['doubtful'] % len(DOUBTFUL), style), {'doubtful_docstring': body, 'style': style})
+    where = 'style={}\n{}\n--- pytest (exit {})\n{}\n--- native (exit {})\n{}'.format(style, '\n'.join(lines), rc_p, out_p[-1500:], rc_n, out_n[-1500:])
+    if 'INTERNALERROR' in out_p or rc_p not in (0, 1):
+        raise Violation('doubtful:pytest_breaks_down', 'the pytest session does not end normally\n' + where)
+    pn = {k[1]: v for k, v in res_p.items()}
+    nn = {k[1]: v for k, v in res_n.items()}
+    for front, got, trace in (('pytest', pn, trace_p), ('native', nn, trace_n)):
+        if got.get('good_a:0') != 'passed' or got.get('failing_c:0') != 'failed':
+            raise Violation('doubtful:neighbour_lost:' + front, '{}: good_a is {} (expected passed), failing_c is {} (expected failed)\n{}'.format(
+                front, got.get('good_a:0'), got.get('failing_c:0'), where))
+        if sorted(trace) != ['a', 'c']:
+            raise Violation('doubtful:neighbour_trace:' + front, '{}: the neighbours that ran: {}\n{}'.format(front, trace, where))
+    a, b = pn.get('doubtful:0'), nn.get('doubtful:0')
+    if {a, b} & {'failed'} and a != b and not ({a, b} <= {'failed', 'error'}):
+        raise Violation('doubtful:front_ends_differ', 'the doubtful docstring is {} under pytest and {} natively\n{}'.format(a, b, where))
+    if rc_p != 1 or rc_n == 0:
+        raise Violation('doubtful:exit_status', 'failing_c fails: pytest exit {} native exit {}\n{}'.format(rc_p, rc_n, where))
+
+
+def doubtful(ctx, shard, nshards):
+    n = 0
+    for i in range(len(DOUBTFUL)):
+        for style in STYLES:
+            n += 1
+            if n % nshards == shard:
+                ctx.guard(check_doubtful_case, {'doubtful': i, 'style': style})
+    if shard == 0:
+        ctx.exhaustive.append('doubtful docstring ({}) x style (3) between a passing and a failing neighbour, pytest and native'.format(len(DOUBTFUL)))
+
+
 def hyp_packages(ctx, n_examples, max_modules):
     engine.hyp_run(ctx, case_strategy(max_modules), _checked, n_examples, shrink=False)
 
@@ -389,4 +457,5 @@ def jobs(tier):
     out += [('hyp_packages#%d' % s, 'hyp_packages', dict(n_examples=5 if quick else 60, max_modules=10)) for s in range(10)]
     out += [('hyp_single#%d' % s, 'hyp_packages', dict(n_examples=8 if quick else 90, max_modules=1)) for s in range(5)]
     out += [('hyp_textfiles#%d' % s, 'hyp_textfiles', dict(n_examples=6 if quick else 80)) for s in range(2)]
+    out += [('doubtful#%d' % s, 'doubtful', dict(shard=s, nshards=3)) for s in range(3)]
     return out
